@@ -260,15 +260,18 @@ func c10Merge(c *mc.Ctx) {
 	viaPull := c.Choose(2) == 1
 	order := c.ChooseDev(3)
 	extra := 0 // 1: --commit-csv <resolved file>, 2: --no-gui (wrgl merge only)
+	track := 0 // wrgl pull only. 1: the remote-tracking ref already exists, on the branch's commit (an earlier pull), and the refspec carries '+' as the configured default does: upstream may have been rewritten since
 	if !viaPull {
 		extra = c.ChooseDev(5) // 3: the branch is named through a revision expression (main^); 4: a second branch a/main exists
+	} else {
+		track = c.ChooseDev(2)
 	}
 	if extra == 3 && len(c10graph.Parents[rel.old]) == 0 {
 		c.Skip() // main^ does not exist
 	}
 	c.Shard()
 	pool := c12Pool()
-	desc := fmt.Sprintf("merge relation=%s(branch=node %d, other=node %d) mode=%q viaPull=%v timeorder=%d extra=%s", rel.name, rel.old, rel.new, mode, viaPull, order, []string{"none", "--commit-csv", "--no-gui", "branch-as-main^", "decoy-branch-a/main"}[extra])
+	desc := fmt.Sprintf("merge relation=%s(branch=node %d, other=node %d) mode=%q viaPull=%v timeorder=%d extra=%s trackingRefFromEarlierPull=%v", rel.name, rel.old, rel.new, mode, viaPull, order, []string{"none", "--commit-csv", "--no-gui", "branch-as-main^", "decoy-branch-a/main"}[extra], track == 1)
 	c.Logf("%s", desc)
 	repo, err := newCLIRepo()
 	if err != nil {
@@ -316,6 +319,9 @@ func c10Merge(c *mc.Ctx) {
 			panic(err)
 		}
 		srs.Set("heads/main", sums[rel.new])
+		if track == 1 {
+			ref.SaveRef(rs, "remotes/origin/main", sums[rel.old], "t", "t@t", "fetch", "[from origin] storing head", nil)
+		}
 		ts = httptest.NewServer(refsrv.New(sdb, srs))
 		defer ts.Close()
 	} else {
@@ -332,6 +338,9 @@ func c10Merge(c *mc.Ctx) {
 			return
 		}
 		args = []string{"pull", "main", "origin", "refs/heads/main:refs/remotes/origin/main", "-n", "1"}
+		if track == 1 {
+			args[3] = "+" + args[3]
+		}
 	} else {
 		args = []string{"merge", "main", "other", "-n", "1"}
 		if extra == 3 {
